@@ -480,7 +480,8 @@ def _enum_disjoint(size):
 
 contract(
     M + '_load_disjoint_csr',
-    properties=['C05'], mode='bounded',
+    # C13: stacking row selections of several files (amalgamate_h5ad) reads them through this function
+    properties=['C05', 'C13'], mode='bounded',
     native=dict(enumerate=_enum_disjoint, env=dict(same_rows=_same_rows),
                 bound='exhaustive: every duplicate-free row list (all orders, 325 lists) over 5 '
                       'matrices with 5 rows (empty rows, all-zero, dense, single column)'),
